@@ -1147,8 +1147,10 @@ func EvalExpression(exprSrc string, rootValue interface{}, stdout io.Writer) (*C
 	ev := NewEvaluator(Program{}, &lex, stdout)
 	ev.root = rootCell
 	ev.ruleRoot = rootCell
+	// an exit or next executed by the expression is returned as errExit or
+	// errNext, it's up to the caller to act on it
 	cell, err := ev.evalExpr(expr)
-	if err != nil && err != errExit {
+	if err != nil {
 		return nil, err
 	}
 	return cell, nil
@@ -1203,6 +1205,14 @@ func EvalProgram(progSrc string, files []InputFile, rootSelectors []string, stdo
 			if len(rootSelectors) > 0 {
 				for _, rootSelector := range rootSelectors {
 					cell, err := EvalExpression(rootSelector, rootValue, stdout)
+					if err == errExit {
+						// exit in a selector ends the whole run, like in a rule
+						return &ev, nil
+					}
+					if err == errNext {
+						// next in a selector skips this root, no rules run for it
+						continue
+					}
 					if err != nil {
 						return &ev, err
 					}
